@@ -668,16 +668,24 @@ def check_bvn_terms(project: Project, rep):
             if any(x[0] == "in" for x in sym.walk(t)) and t[0] in ("mul", "ite"):
                 aff.append((ev, k, c))
     want = {(-1 / 8, 0.5), (-1 / 16, 0.75)}
+    wantr = {(round(a, 12), round(b, 12)) for a, b in want}
     got = {(round(k, 12), round(c, 12)) for _, k, c in aff}
     for ev, k, c in aff:
-        if (round(k, 12), round(c, 12)) in {(round(a, 12), round(b, 12)) for a, b in want}:
+        if (round(k, 12), round(c, 12)) in wantr:
             rep.discharged("KN-AFF", fi, ev["node"], f"affine sub-term {k:g}·hk {c:+g} is Genz's "
                                                      f"{'(4−hk)/8' if abs(c - 0.5) < 1e-12 else '(12−hk)/16'}")
-        else:
+    missing = wantr - got
+    if missing:
+        # a term of the published expansion is absent: another affine term in hk then stands in its place; when both
+        # published terms are present, further affine expressions of the code are none of this rule's business
+        # bare numerators (4−hk), (12−hk) divided in a later statement are not a wrong term
+        near = [(ev, k, c) for ev, k, c in aff if (round(k, 12), round(c, 12)) not in wantr
+                and (round(k, 12), round(c, 12)) not in {(-1.0, 4.0), (-1.0, 12.0)}]
+        if near:
+            ev, k, c = near[0]
             rep.refuted("KN-AFF", fi, ev["node"], f"affine sub-term {k:g}·hk {c:+g} is neither (4−hk)/8 nor (12−hk)/16 of the "
                                                   f"published expansion")
-    if not {(round(a, 12), round(b, 12)) for a, b in want} <= got:
-        if not aff:
+        else:
             rep.unmodelled("KN-AFF", fi, fi.node, "affine sub-terms of the tail expansion not found")
     if not got_r:
         rep.unmodelled("KN-AFF", fi, fi.node, "correlation not found")
